@@ -363,9 +363,80 @@ def check_table(agg, coldefs, nrows, setting, per_table=None):
         agg.outcomes["table-ok"] += 1
 
 
+def unit_disturb(unit):
+    """repr is a function of the object and of the set_repr_rows setting only: every sequence of one or two 'disturbing' calls
+    (repr / peek of tables with their own row override, of zero-column, zero-row and wide tables, of rows and empty vectors,
+    a set_repr_rows(k) that is taken back) must leave the repr of unrelated probe objects exactly as it was"""
+    import serif
+    from serif import Vector, Table
+    agg = Agg()
+    serif.set_repr_rows(None)
+
+    def probes():
+        return [Vector(list(range(30)), name="p"), Table({"a": list(range(30)), "b": [str(i) for i in range(30)]}), Vector([1, 2, 3, 4, 5]),
+                Table({"a": [1, 2, 3]}), Vector([float(i) for i in range(13)])]
+
+    def with_override(t, k):
+        t._repr_rows = k
+        return t
+    wide = {f"c{i}": [i, i + 1] for i in range(12)}
+    disturbers = [
+        ("repr(Table().peek())", lambda: repr(Table().peek())),
+        ("repr(zero-column table with override 4)", lambda: repr(with_override(Table(), 4))),
+        ("repr(zero-column table with override 200)", lambda: repr(with_override(Table(), 200))),
+        ("repr(table.peek())", lambda: repr(Table({"a": list(range(40))}).peek())),
+        ("repr(zero-row table with override 2)", lambda: repr(with_override(Table({"a": []}), 2))),
+        ("repr(long table with override 2)", lambda: repr(with_override(Table({"a": list(range(40))}), 2))),
+        ("repr(long table with override 0)", lambda: repr(with_override(Table({"a": list(range(40))}), 0))),
+        ("repr(wide table with override 200)", lambda: repr(with_override(Table(wide), 200))),
+        ("repr(wide table)", lambda: repr(Table(wide))),
+        ("repr(row)", lambda: repr(Table({"a": [1, 2], "b": [3, 4]})[0])),
+        ("repr(empty vector)", lambda: repr(Vector([]))),
+        ("repr(vector of None)", lambda: repr(Vector([None, None]))),
+        ("set_repr_rows(3) taken back", lambda: (serif.set_repr_rows(3), repr(Vector(list(range(9)))), serif.set_repr_rows(None))),
+        ("set_repr_rows(0) taken back", lambda: (serif.set_repr_rows(0), repr(Table({"a": [1, 2, 3]})), serif.set_repr_rows(None))),
+        ("str(table with override 1)", lambda: str(with_override(Table({"a": list(range(40))}), 1))),
+        ("repr raising inside a cell", lambda: repr(Vector([_BadRepr(), 1]))),
+    ]
+    base = [repr(p) for p in probes()]
+    seqs = [(d,) for d in disturbers] + [(a, b) for a in disturbers for b in disturbers if a is not b]
+    for seq in seqs:
+        agg.evals += 1; agg.transitions += len(seq) + 5; agg.states += 1; agg.nontrivial += 1; agg.compared += 5
+        labels = [d[0] for d in seq]
+        for _, th in seq:
+            try:
+                th()
+            except Exception:
+                pass
+        got = []
+        for p_ in probes():
+            try:
+                got.append(repr(p_))
+            except Exception as e:
+                got.append("raises-" + type(e).__name__)
+        bad = [i for i, (g, b) in enumerate(zip(got, base)) if g != b]
+        if bad:
+            i = bad[0]
+            agg.violation(V("repr.after-other-reprs", "repr-of-an-unrelated-object-changed", {"calls_before": labels, "probe": i},
+                            base[i][-160:], got[i][-160:]))
+            serif.set_repr_rows(None)
+        else:
+            agg.outcomes["undisturbed"] += 1
+    serif.set_repr_rows(None)
+    agg.sample({"disturbers": [d[0] for d in disturbers]})
+    return agg
+
+
+class _BadRepr:
+    def __repr__(self):
+        raise RuntimeError("repr of a cell fails")
+
+
 def run_unit(unit):
     agg = Agg()
     what = unit[0]
+    if what == "disturb":
+        return unit_disturb(unit)
     if what == "vec":
         _, kind, setting = unit
         n, half = limit_of(setting)
@@ -421,6 +492,7 @@ def check(ctx):
     widths = (0, 1, 2, 9, 10, 11, 12) if not ctx.thorough else tuple(range(0, 15))
     units = [("vec", k, s) for k in GEN for s in settings]
     units += [("tab", w, s) for w in widths for s in settings]
+    units += [("disturb",)]
     agg = core.merge_all(core.pmap(run_unit, units))
     agg.notes["bound"] = "see RULE"
     agg.notes["exhaustive"] = True
